@@ -571,4 +571,396 @@ Proof.
   - apply Nat.ltb_lt in E. rewrite app_length, repeat_length. lia.
   - apply Nat.ltb_ge in E. lia.
 Qed.
+(* =================================================================================== *)
+(* "When the width is at least the number of complete sequences and all paths are run to
+   completion the result is the full set of them."                                       *)
+Section Exhaustive.
+Variable T : nat.
+Variable s0 : state.
+(* eos is a token of the vocabulary (BeamSearch.__init__ checks it) *)
+Definition eos_ok : Prop := match eos with Some e => (0 <= e < Z.of_nat V)%Z | None => True end.
+(* "the width is at least the number of complete sequences" *)
+Definition wide : Prop := forall l : list (list Z),
+  NoDup l -> (forall p, In p l -> complete V eos T p) -> length l <= width.
+(* "all paths are run to completion" *)
+Definition to_completion : Prop := fin_all = true \/ eos = None.
+
+Definition finished (p : list Z) : Prop :=
+  match eos with Some e => p <> [] /\ last p 0%Z = e | None => False end.
+
+(* the sequences a search of depth t can have produced *)
+Definition partial (t : nat) (p : list Z) : Prop :=
+  in_vocab V p /\
+  ((finished p /\ eos_first eos p /\ length p <= t) \/ (no_eos p /\ length p = t)).
+
+Definition EInv (t : nat) (beam : list aslot) : Prop :=
+  forall p, partial t p -> sfin (chain calc s0 p) = true ->
+  exists a, In a beam /\ apath a = p /\ sfin (asc a) = true.
+
+Lemma pfin_finished t p : pfin t p = true -> finished p.
+Proof.
+  intros H. destruct (pfin_true_pos t p H) as (_ & e & He & Hne & Hl). unfold finished. now rewrite He.
+Qed.
+
+Lemma finished_pfin t p : t <> 0 -> finished p -> pfin t p = true.
+Proof.
+  unfold finished, pfin. destruct eos as [e|]; [|contradiction]. intros Ht (Hne & Hl).
+  apply Nat.eqb_neq in Ht. rewrite Ht, Hl, Z.eqb_refl. cbn.
+  destruct p; [contradiction|reflexivity].
+Qed.
+
+Lemma last_In {A} (l : list A) d : l <> [] -> In (last l d) l.
+Proof.
+  intros H. destruct (exists_last H) as (l' & x & ->). rewrite last_last. apply in_or_app. right. now left.
+Qed.
+
+Lemma no_eos_not_finished p : no_eos p -> ~ finished p.
+Proof.
+  unfold no_eos, finished. destruct eos as [e|]; [|tauto]. intros H (Hne & Hl). apply H.
+  rewrite <- Hl. now apply last_In.
+Qed.
+
+Lemma no_eos_pfin t p : no_eos p -> pfin t p = false.
+Proof.
+  intros H. destruct (pfin t p) eqn:E; [|reflexivity]. exfalso.
+  eapply no_eos_not_finished; [exact H|]. eapply pfin_finished; exact E.
+Qed.
+
+Lemma chain_fin_prefix q r : sfin (chain calc s0 (q ++ r)) = true -> sfin (chain calc s0 q) = true.
+Proof.
+  induction r as [|v r IH] using rev_ind; [now rewrite app_nil_r|].
+  rewrite app_assoc, chain_snoc. intros H. apply sadd_fin_l in H. now apply IH.
+Qed.
+
+(* the path a candidate would have *)
+Definition npath (t : nat) (beam : list aslot) (i : nat) : list Z :=
+  apath (aext t beam (acands t beam) i).
+
+Lemma cand_partial t beam i : AInv s0 t beam -> i < length beam * V ->
+  sfin (nth i (acands t beam) None) = true -> partial (S t) (npath t beam i).
+Proof.
+  intros Hinv Hi Hf. unfold npath.
+  assert (Hf' : sfin (asc (aext t beam (acands t beam) i)) = true).
+  { unfold aext. now rewrite anorm_sc. }
+  destruct (aext_facts s0 t beam i Hinv Hi) as (Hin & Hv & _).
+  destruct (aext_finite s0 t beam i Hinv Hi Hf') as (Hfa & [(Hfin & Hp & _ & _ & _ & _)|(Hl & Hp & _ & _)]);
+    rewrite Hp.
+  - destruct (ai_fin _ _ _ Hinv _ Hin Hfa Hfin) as (Hlen & Hef).
+    split; [now apply (ai_vocab _ _ _ Hinv)|]. left. split; [eapply pfin_finished; exact Hfin|]. split; [exact Hef|lia].
+  - destruct (ai_live _ _ _ Hinv _ Hin Hl) as (Hlen & Hne & _).
+    set (q := apath (nth (i / V) beam adflt)) in *. set (v := Z.of_nat (i mod V)) in *.
+    split; [apply in_vocab_snoc; [now apply (ai_vocab _ _ _ Hinv)|exact Hv]|].
+    assert (Hlq : length (q ++ [v]) = S t) by (rewrite app_length; cbn; lia).
+    unfold finished, eos_first, no_eos in *. destruct eos as [e|] eqn:Ee.
+    + destruct (Z.eq_dec v e) as [->|Hne'].
+      * left. split; [split; [now destruct q|apply last_last]|]. split; [now rewrite removelast_snoc|lia].
+      * right. split; [|exact Hlq]. intros Hine. apply in_app_or in Hine.
+        destruct Hine as [Hine|[Hine|[]]]; [now apply Hne|congruence].
+    + right. split; [exact I|exact Hlq].
+Qed.
+
+Lemma cand_paths_distinct t beam i1 i2 : AInv s0 t beam ->
+  i1 < length beam * V -> i2 < length beam * V -> i1 <> i2 ->
+  sfin (nth i1 (acands t beam) None) = true -> sfin (nth i2 (acands t beam) None) = true ->
+  npath t beam i1 <> npath t beam i2.
+Proof.
+  intros Hinv Hi1 Hi2 Hi12 Hf1 Hf2. unfold npath.
+  assert (Hf1' : sfin (asc (aext t beam (acands t beam) i1)) = true) by (unfold aext; now rewrite anorm_sc).
+  assert (Hf2' : sfin (asc (aext t beam (acands t beam) i2)) = true) by (unfold aext; now rewrite anorm_sc).
+  assert (Hk1' : i1 / V < length beam) by (apply div_lt_rows; lia).
+  assert (Hk2' : i2 / V < length beam) by (apply div_lt_rows; lia).
+  destruct (aext_finite s0 t beam i1 Hinv Hi1 Hf1') as (Hfa1 & C1).
+  destruct (aext_finite s0 t beam i2 Hinv Hi2 Hf2') as (Hfa2 & C2).
+  destruct (aext_facts s0 t beam i1 Hinv Hi1) as (Hin1 & _).
+  destruct (aext_facts s0 t beam i2 Hinv Hi2) as (Hin2 & _).
+  assert (Hsrc : i1 / V <> i2 / V -> apath (nth (i1 / V) beam adflt) <> apath (nth (i2 / V) beam adflt)).
+  { intros Hd. now apply (ai_distinct _ _ _ Hinv). }
+  assert (Hdm : i1 / V = i2 / V -> i1 mod V = i2 mod V -> False).
+  { intros E1 E2. apply Hi12. rewrite (Nat.div_mod i1 V), (Nat.div_mod i2 V) by lia. now rewrite E1, E2. }
+  destruct C1 as [(Hfin1 & Hp1 & _ & He1 & _)|(Hl1 & Hp1 & _)];
+  destruct C2 as [(Hfin2 & Hp2 & _ & He2 & _)|(Hl2 & Hp2 & _)]; rewrite Hp1, Hp2.
+  - apply Hsrc. intros E. apply (Hdm E). rewrite He1 in He2. injection He2. lia.
+  - destruct (ai_fin _ _ _ Hinv _ Hin1 Hfa1 Hfin1) as (Hlen1 & _).
+    destruct (ai_live _ _ _ Hinv _ Hin2 Hl2) as (Hlen2 & _).
+    intros E. apply (f_equal (@length Z)) in E. rewrite app_length in E. cbn in E. lia.
+  - destruct (ai_fin _ _ _ Hinv _ Hin2 Hfa2 Hfin2) as (Hlen2 & _).
+    destruct (ai_live _ _ _ Hinv _ Hin1 Hl1) as (Hlen1 & _).
+    intros E. apply (f_equal (@length Z)) in E. rewrite app_length in E. cbn in E. lia.
+  - intros E. apply app_inj_tail in E. destruct E as [E1 E2].
+    destruct (Nat.eq_dec (i1 / V) (i2 / V)) as [Ed|Ed].
+    + apply (Hdm Ed). lia.
+    + now apply Hsrc.
+Qed.
+
+(* a complete sequence that extends a partial one, chosen injectively *)
+Definition finb (p : list Z) : bool :=
+  match eos with Some e => (last p 0%Z =? e)%Z && (0 <? length p) | None => false end.
+Definition cpl (p : list Z) : list Z :=
+  match eos with
+  | Some e => if finb p then p else if length p <? T then p ++ [e] else p
+  | None => p ++ repeat 0%Z (T - length p)
+  end.
+
+Lemma finb_finished p : finb p = true <-> finished p.
+Proof.
+  unfold finb, finished. destruct eos as [e|]; [|split; [discriminate|contradiction]]. split.
+  - intros H. apply andb_prop in H. destruct H as [H1 H2]. apply Z.eqb_eq in H1.
+    split; [|exact H1]. intros ->. discriminate.
+  - intros (Hne & Hl). rewrite Hl, Z.eqb_refl. destruct p; [contradiction|reflexivity].
+Qed.
+
+Lemma cpl_complete t p : eos_ok -> partial (S t) p -> S t <= T -> complete V eos T (cpl p).
+Proof.
+  intros Heos. unfold eos_ok in Heos. intros (Hv & [(Hfin & Hef & Hlen)|(Hne & Hlen)]) Ht.
+  - assert (Hb : finb p = true) by now apply finb_finished.
+    unfold cpl, complete, finished, eos_first in *. destruct eos as [e|]; [|contradiction].
+    rewrite Hb. split; [exact Hv|]. left. destruct Hfin as (H1 & H2). repeat split; auto. lia.
+  - assert (Hb : finb p = false).
+    { destruct (finb p) eqn:E; [|reflexivity]. apply finb_finished in E. exfalso.
+      eapply no_eos_not_finished; eassumption. }
+    unfold cpl, complete, no_eos in *. destruct eos as [e|].
+    + rewrite Hb. destruct (length p <? T) eqn:El.
+      * apply Nat.ltb_lt in El. split; [apply in_vocab_snoc; [exact Hv|exact Heos]|]. left.
+        split; [now destruct p|]. split; [apply last_last|]. split; [now rewrite removelast_snoc|].
+        rewrite app_length. cbn. lia.
+      * apply Nat.ltb_ge in El. split; [exact Hv|]. right. split; [exact Hne|lia].
+    + split.
+      * apply Forall_app. split; [exact Hv|]. apply Forall_forall. intros z Hz.
+        apply repeat_spec in Hz. subst z. lia.
+      * rewrite app_length, repeat_length. lia.
+Qed.
+
+Lemma cpl_inj t p1 p2 : partial (S t) p1 -> partial (S t) p2 -> cpl p1 = cpl p2 -> p1 = p2.
+Proof.
+  intros (Hv1 & C1) (Hv2 & C2) E. unfold cpl in E.
+  destruct eos as [e|] eqn:Ee.
+  - assert (Hb : forall p, (finished p /\ eos_first eos p /\ length p <= S t) -> finb p = true).
+    { intros p (H & _). apply finb_finished. exact H. }
+    assert (Hb' : forall p, no_eos p -> finb p = false).
+    { intros p H. destruct (finb p) eqn:E'; [|reflexivity]. apply finb_finished in E'. exfalso.
+      eapply no_eos_not_finished; eassumption. }
+    assert (Hine : forall p, finished p -> In e p).
+    { intros p Hf. unfold finished in Hf. rewrite Ee in Hf. destruct Hf as (Hn & <-). now apply last_In. }
+    rewrite <- Ee in *.
+    destruct C1 as [C1|(Hn1 & Hl1)], C2 as [C2|(Hn2 & Hl2)].
+    + now rewrite (Hb _ C1), (Hb _ C2) in E.
+    + rewrite (Hb _ C1), (Hb' _ Hn2) in E. destruct C1 as (Hf1 & _ & Hl1).
+      destruct (length p2 <? T).
+      * apply (f_equal (@length Z)) in E. rewrite app_length in E. cbn in E. lia.
+      * subst p2. exfalso. unfold no_eos in Hn2. rewrite Ee in Hn2. apply Hn2. apply Hine. exact Hf1.
+    + rewrite (Hb' _ Hn1), (Hb _ C2) in E. destruct C2 as (Hf2 & _ & Hl2).
+      destruct (length p1 <? T).
+      * apply (f_equal (@length Z)) in E. rewrite app_length in E. cbn in E. lia.
+      * subst p1. exfalso. unfold no_eos in Hn1. rewrite Ee in Hn1. apply Hn1. apply Hine. exact Hf2.
+    + rewrite (Hb' _ Hn1), (Hb' _ Hn2), Hl1, Hl2 in E.
+      destruct (S t <? T); [now apply app_inv_tail in E|exact E].
+  - destruct C1 as [(F & _)|(_ & Hl1)]; [unfold finished in F; rewrite Ee in F; contradiction|].
+    destruct C2 as [(F & _)|(_ & Hl2)]; [unfold finished in F; rewrite Ee in F; contradiction|].
+    rewrite Hl1, Hl2 in E. now apply app_inv_tail in E.
+Qed.
+
+Lemma filter_len_le {A} (f : A -> bool) (l : list A) : length (filter f l) <= length l.
+Proof. induction l as [|a l IH]; cbn; [lia|]. destruct (f a); cbn; lia. Qed.
+
+Lemma NoDup_map_inj_on {A B} (f : A -> B) (l : list A) :
+  NoDup l -> (forall x y, In x l -> In y l -> f x = f y -> x = y) -> NoDup (map f l).
+Proof.
+  induction 1 as [|a l Hn Hd IH]; intros Hinj; cbn; constructor.
+  - intros Hin. apply in_map_iff in Hin. destruct Hin as (y & Hy & Hyl).
+    assert (y = a) by (apply Hinj; [now right|now left|exact Hy]). subst. contradiction.
+  - apply IH. intros x y Hx Hy. apply Hinj; now right.
+Qed.
+
+(* with a wide beam every finite candidate is selected *)
+Lemma all_finite_selected t beam i : eos_ok -> wide -> AInv s0 t beam -> S t <= T -> i < length beam * V ->
+  sfin (nth i (acands t beam) None) = true -> In i (topk (Ksel beam) (acands t beam)).
+Proof.
+  intros Heos Hwide Hinv Ht Hi Hf.
+  set (cs := acands t beam) in *. set (sel := topk (Ksel beam) cs).
+  destruct (in_dec Nat.eq_dec i sel) as [Hin|Hnin]; [exact Hin|exfalso].
+  destruct (topk_facts t beam) as (Hl & Hnd & Hlt & _ & Hdom). fold cs sel in Hl, Hnd, Hlt, Hdom.
+  set (L := filter (fun j => sfin (nth j cs None)) (seq 0 (length beam * V))).
+  assert (HL : forall j, In j L <-> j < length beam * V /\ sfin (nth j cs None) = true).
+  { intros j. unfold L. rewrite filter_In, in_seq. split; intros (H1 & H2); split; auto; lia. }
+  assert (HndL : NoDup L) by (apply NoDup_filter, seq_NoDup).
+  assert (Hincl : incl (i :: sel) L).
+  { intros j [<-|Hj]; apply HL; [now split|]. split; [now apply Hlt|].
+    eapply sleb_fin; [|exact Hf]. now apply Hdom. }
+  assert (Hlen1 : S (Ksel beam) <= length L).
+  { rewrite <- Hl. change (S (length sel)) with (length (i :: sel)).
+    apply NoDup_incl_length; [constructor; assumption|exact Hincl]. }
+  assert (Hlen2 : length L <= length beam * V).
+  { unfold L. etransitivity; [apply filter_len_le|]. now rewrite seq_length. }
+  assert (Hlen3 : length L <= width).
+  { rewrite <- (map_length (fun j => cpl (npath t beam j)) L). apply Hwide.
+    - apply NoDup_map_inj_on; [exact HndL|]. intros j1 j2 H1 H2 E.
+      apply HL in H1, H2. destruct H1 as (H1 & F1), H2 as (H2 & F2).
+      destruct (Nat.eq_dec j1 j2) as [|Hne]; [assumption|exfalso].
+      apply (cand_paths_distinct t beam j1 j2 Hinv H1 H2 Hne F1 F2).
+      eapply (cpl_inj t); [| |exact E]; now apply cand_partial.
+    - intros p Hp. apply in_map_iff in Hp. destruct Hp as (j & <- & Hj). apply HL in Hj.
+      destruct Hj as (Hj & Fj). apply (cpl_complete t); [exact Heos|now apply cand_partial|exact Ht]. }
+  unfold Ksel in Hlen1. lia.
+Qed.
+
+Lemma in_beam_index beam a : In a beam -> exists k, k < length beam /\ nth k beam adflt = a.
+Proof. intros H. now apply In_nth. Qed.
+
+Lemma selected_in_astep t beam i : In i (topk (Ksel beam) (acands t beam)) ->
+  In (aext t beam (acands t beam) i) (astep t beam).
+Proof. intros H. unfold astep. fold (Ksel beam). apply in_or_app. left. now apply in_map. Qed.
+
+Lemma EInv_step t beam : eos_ok -> wide -> AInv s0 t beam -> EInv t beam -> S t <= T -> EInv (S t) (astep t beam).
+Proof.
+  intros Heos Hwide Hinv HE Ht p (Hv & C) Hfc. pose proof Heos as Heos'. unfold eos_ok in Heos'.
+  (* Either p was already complete at depth t, or p = q ++ [v] with q live at depth t *)
+  assert (Hcase : (finished p /\ eos_first eos p /\ length p <= t) \/
+                  (exists q v, p = q ++ [v] /\ length q = t /\ no_eos q)).
+  { destruct C as [(Hf & Hef & Hl)|(Hne & Hl)].
+    - destruct (Nat.eq_dec (length p) (S t)) as [E|E]; [|left; repeat split; auto; lia].
+      right. assert (Hnn : p <> []) by (intros ->; discriminate).
+      destruct (exists_last Hnn) as (q & v & ->). exists q, v.
+      rewrite app_length in E. cbn in E. split; [reflexivity|]. split; [lia|].
+      unfold eos_first, no_eos in *. destruct eos; [|exact I]. now rewrite removelast_snoc in Hef.
+    - right. assert (Hnn : p <> []) by (intros ->; discriminate).
+      destruct (exists_last Hnn) as (q & v & ->). exists q, v.
+      rewrite app_length in Hl. cbn in Hl. split; [reflexivity|]. split; [lia|].
+      unfold no_eos in *. destruct eos; [|exact I]. intros Hin. apply Hne. apply in_or_app. now left. }
+  destruct Hcase as [(Hf & Hef & Hl)|(q & v & -> & Hlq & Hnq)].
+  - (* carried over: the finished path re-emits eos at no cost *)
+    assert (Ht0 : t <> 0).
+    { intros ->. unfold finished in Hf. destruct eos; [|contradiction]. destruct Hf as (Hn & _).
+      destruct p; [contradiction|cbn in Hl; lia]. }
+    destruct (HE p) as (a & Hin & Hp & Hfa); [split; [exact Hv|]; left; auto|exact Hfc|].
+    destruct (in_beam_index beam a Hin) as (k & Hk & Hka).
+    assert (Hfin : afin t a = true) by (unfold afin; rewrite Hp; now apply finished_pfin).
+    unfold finished in Hf. destruct eos as [e|] eqn:Ee; [|contradiction].
+    set (j := Z.to_nat e). assert (Hj : j < V) by (unfold j; lia).
+    set (i := k * V + j). assert (Hi : i < length beam * V) by (unfold i; nia).
+    destruct (div_mod_unique V k j Hj) as (Hdiv & Hmod). fold i in Hdiv, Hmod.
+    destruct (acands_nth t beam i Hi) as (_ & _ & Hn). rewrite Hdiv, Hka, Hmod in Hn.
+    destruct (arow_fin t a j Hfin Hj) as (e' & He' & Hrow). rewrite Ee in He'. injection He' as <-.
+    assert (Hje : Z.of_nat j = e) by (unfold j; lia). rewrite Hje, Z.eqb_refl in Hrow.
+    rewrite <- Ee in *.
+    assert (Hfi : sfin (nth i (acands t beam) None) = true) by (rewrite Hn, Hrow, sadd_0_r; exact Hfa).
+    pose proof (all_finite_selected t beam i Heos Hwide Hinv Ht Hi Hfi) as Hsel.
+    exists (aext t beam (acands t beam) i). split; [now apply selected_in_astep|].
+    destruct (aext_facts s0 t beam i Hinv Hi) as (_ & _ & Hpath & Hsc & _).
+    rewrite Hdiv, Hka in Hpath, Hsc. rewrite Hfin in Hpath. split; [now rewrite Hpath|].
+    now rewrite Hsc, Hmod, Hrow, sadd_0_r.
+  - (* a live path of depth t extended by v *)
+    assert (Hvq : in_vocab V q /\ (0 <= v < Z.of_nat V)%Z).
+    { unfold in_vocab in Hv. apply Forall_app in Hv. destruct Hv as (H1 & H2). split; [exact H1|]. now inversion H2. }
+    destruct Hvq as (Hvq & Hvv).
+    assert (Hfq : sfin (chain calc s0 q) = true) by (eapply chain_fin_prefix; exact Hfc).
+    destruct (HE q) as (a & Hin & Hp & Hfa); [split; [exact Hvq|]; right; auto|exact Hfq|].
+    destruct (in_beam_index beam a Hin) as (k & Hk & Hka).
+    assert (Hfin : afin t a = false) by (unfold afin; rewrite Hp; now apply no_eos_pfin).
+    assert (Hal : alive t a = true) by (unfold alive; now rewrite Hfa, Hfin).
+    destruct (ai_live _ _ _ Hinv a Hin Hal) as (_ & _ & Hst).
+    set (j := Z.to_nat v). assert (Hj : j < V) by (unfold j; lia).
+    set (i := k * V + j). assert (Hi : i < length beam * V) by (unfold i; nia).
+    destruct (div_mod_unique V k j Hj) as (Hdiv & Hmod). fold i in Hdiv, Hmod.
+    destruct (acands_nth t beam i Hi) as (_ & _ & Hn). rewrite Hdiv, Hka, Hmod in Hn.
+    rewrite arow_live in Hn by exact Hfin.
+    assert (Hch : nth i (acands t beam) None = chain calc s0 (q ++ [v])).
+    { rewrite Hn, chain_snoc, (ai_chain _ _ _ Hinv a Hin Hfa), Hp, Hst, Hp, Hlq. reflexivity. }
+    assert (Hfi : sfin (nth i (acands t beam) None) = true) by (now rewrite Hch).
+    pose proof (all_finite_selected t beam i Heos Hwide Hinv Ht Hi Hfi) as Hsel.
+    exists (aext t beam (acands t beam) i). split; [now apply selected_in_astep|].
+    destruct (aext_facts s0 t beam i Hinv Hi) as (_ & _ & Hpath & Hsc & _).
+    rewrite Hdiv, Hka in Hpath, Hsc. rewrite Hfin in Hpath. split.
+    + rewrite Hpath, Hp, Hmod. unfold j. now rewrite Z2Nat.id by lia.
+    + unfold aext. rewrite anorm_sc. cbn [asc]. exact Hfi.
+Qed.
+
+Definition EJ (t : nat) (beam : list aslot) : Prop :=
+  (AInv s0 t beam /\ EInv t beam) \/
+  exists t', t' <> 0 /\ t' < t /\ AInv s0 t' beam /\ EInv t' beam /\ adone t' beam = true.
+
+Lemma EJ_tick t beam : eos_ok -> wide -> S t <= T -> EJ t beam -> EJ (S t) (atick t beam).
+Proof.
+  intros Heos Hwide Ht [(H & HE)|(t' & H0 & Hlt & H & HE & Hd)]; unfold atick.
+  - destruct (adone t beam) eqn:Ed.
+    + right. exists t. split; [|split; [lia|auto]].
+      eapply adone_active; [exact Ed|]. eapply AInv_nonempty; exact H.
+    + left. split; [now apply AInv_step|now apply EInv_step].
+  - rewrite (adone_later t' t) by lia. rewrite Hd. right. exists t'.
+    split; [exact H0|split; [lia|auto]].
+Qed.
+
+Lemma EJ_run : eos_ok -> wide -> forall fuel t beam, t + fuel <= T -> EJ t beam -> EJ (t + fuel) (arun fuel t beam).
+Proof.
+  intros Heos Hwide. induction fuel as [|f IH]; intros t beam Ht H; cbn [arun].
+  - now rewrite Nat.add_0_r.
+  - rewrite Nat.add_succ_r. apply (IH (S t)); [lia|]. apply EJ_tick; [exact Heos|exact Hwide|lia|exact H].
+Qed.
+
+Lemma EInv_init : EInv 0 (ainit s0).
+Proof.
+  intros p (Hv & [(_ & _ & Hl)|(_ & Hl)]) _; (destruct p; [|cbn in Hl; lia]);
+    exists (mkA [] (Some 0%Z) s0); repeat split; now left.
+Qed.
+
+Lemma adone_all t beam : to_completion -> adone t beam = true -> forall a, In a beam -> afin t a = true.
+Proof.
+  intros Hrun Hd.
+  assert (Hne : eos <> None).
+  { intros E. unfold adone, active in Hd. rewrite E in Hd. cbn [andb] in Hd.
+    destruct beam as [|a0 beam]; [discriminate|]. cbn in Hd. unfold afin, pfin in Hd. rewrite E in Hd. discriminate. }
+  destruct Hrun as [Hr|Hr]; [|contradiction].
+  unfold adone in Hd. rewrite Hr, andb_true_r in Hd. destruct (active eos t) eqn:Ea.
+  - rewrite forallb_forall in Hd. intros a Ha. apply Hd. now apply in_map.
+  - assert (t = 0).
+    { unfold active in Ea. destruct eos; [|congruence]. now apply negb_false_iff, Nat.eqb_eq in Ea. }
+    subst t. destruct beam as [|a0 beam]; [discriminate|]. cbn in Hd. unfold afin in Hd.
+    rewrite pfin_0 in Hd. discriminate.
+Qed.
+
+Theorem asearch_exhaustive p : eos_ok -> wide -> to_completion ->
+  complete V eos T p -> sfin (chain calc s0 p) = true ->
+  exists a, In a (asearch T s0) /\ apath a = p /\ asc a = chain calc s0 p.
+Proof.
+  intros Heos Hwide Hrun (Hv & Hc) Hfc.
+  pose proof (EJ_run Heos Hwide T 0 (ainit s0) (le_n _) (or_introl (conj (AInv_init s0) EInv_init))) as HJ.
+  cbn [Nat.add] in HJ. set (x := arun T 0 (ainit s0)) in *.
+  assert (Hfound : exists a, In a x /\ apath a = p /\ asc a = chain calc s0 p).
+  { assert (Hfin_of : forall t', AInv s0 t' x -> (exists a, In a x /\ apath a = p /\ sfin (asc a) = true) ->
+                       exists a, In a x /\ apath a = p /\ asc a = chain calc s0 p).
+    { intros t' Hi (a & Hin & Hp & Hf). exists a. repeat split; auto. rewrite <- Hp. now apply (ai_chain _ _ _ Hi). }
+    destruct HJ as [(Hi & HE)|(t' & H0 & Hlt & Hi & HE & Hd)].
+    - apply (Hfin_of T Hi). apply HE; [|exact Hfc]. split; [exact Hv|].
+      unfold finished, eos_first, no_eos. destruct eos as [e|]; [|now right].
+      destruct Hc as [(H1 & H2 & H3 & H4)|(H1 & H2)]; [left|right]; auto.
+    - apply (Hfin_of t' Hi).
+      (* stopped at t' < T: every slot had finished; a longer complete sequence would have a live prefix *)
+      assert (Hall : forall a, In a x -> afin t' a = true) by (now apply adone_all).
+      assert (Hshort : (finished p /\ eos_first eos p /\ length p <= t') \/ t' < length p).
+      { unfold finished, eos_first. destruct eos as [e|].
+        - destruct Hc as [(H1 & H2 & H3 & H4)|(H1 & H2)]; [|right; lia].
+          destruct (Nat.le_gt_cases (length p) t'); [left; auto|right; lia].
+        - right. lia. }
+      destruct Hshort as [Hs|Hlong].
+      + apply HE; [|exact Hfc]. split; [exact Hv|]. now left.
+      + exfalso. set (q := firstn t' p).
+        assert (Hq : p = q ++ skipn t' p) by (symmetry; apply firstn_skipn).
+        assert (Hlq : length q = t') by (unfold q; apply firstn_length_le; lia).
+        assert (Hnq : no_eos q).
+        { unfold no_eos, eos_first in *. destruct eos as [e|]; [|exact I].
+          destruct Hc as [(H1 & H2 & H3 & H4)|(H1 & H2)].
+          - intros Hin. apply H3. rewrite removelast_firstn_len.
+            assert (Hqq : q = firstn t' (firstn (pred (length p)) p)).
+            { rewrite firstn_firstn, Nat.min_l by lia. reflexivity. }
+            rewrite Hqq in Hin. rewrite <- (firstn_skipn t' (firstn (pred (length p)) p)).
+            apply in_or_app. now left.
+          - intros Hin. apply H1. rewrite Hq. apply in_or_app. now left. }
+        destruct (HE q) as (a & Hin & Hp & Hf).
+        * split; [now apply Forall_firstn|]. right. auto.
+        * rewrite Hq in Hfc. eapply chain_fin_prefix; exact Hfc.
+        * specialize (Hall a Hin). unfold afin in Hall. rewrite Hp, (no_eos_pfin t' q Hnq) in Hall. discriminate. }
+  destruct Hfound as (a & Hin & Hp & Hs). exists a. split; [|auto].
+  unfold asearch, awidth. fold x. destruct (length x <? width); [apply in_or_app; now left|exact Hin].
+Qed.
+End Exhaustive.
+
 End Abs.
